@@ -2,6 +2,7 @@ package main
 
 import (
 	"fmt"
+	"sort"
 	"go/token"
 	"go/types"
 	"strings"
@@ -359,6 +360,11 @@ func (f *fx) applyCall(ct *callTarget, args []Val, pos token.Pos, resV *ssa.Call
 	if ct.calleeTerm != nil && !f.noCrash() {
 		f.crash("nil-func-call", T("Bool", "(not (= %s 0))", ct.calleeTerm.S), pos)
 	}
+	if n := f.siteOrdinal(ct.key, pos); n >= 0 {
+		k := fmt.Sprintf("E:visits:%s#%d", ct.key, n)
+		f.regKey(k, "Int")
+		f.set(f.cur, k, T("Int", "(+ %s 1)", f.get(f.cur, k).S))
+	}
 	f.callSiteSpecs(ct, args, pos)
 	// inline?
 	if ct.fn != nil && len(ct.fn.Blocks) > 0 {
@@ -367,6 +373,10 @@ func (f *fx) applyCall(ct *callTarget, args []Val, pos token.Pos, resV *ssa.Call
 		}
 	}
 	if ct.contract == nil {
+		if ct.fn != nil && !isLibraryFn(ct.fn) && smallLoopFree(ct.fn) && f.depth < 3 {
+			f.note("repository function " + ct.key + " has no contract: inlined (small and loop-free)")
+			return f.inline(ct, args, pos)
+		}
 		return f.unknownCall(ct, args, pos)
 	}
 	return f.contractCall(ct, args, pos)
@@ -388,10 +398,9 @@ func (f *fx) callSiteSpecs(ct *callTarget, args []Val, pos token.Pos) {
 	}
 	// ordinal of the static call site (a deferred call is executed on the normal and on the panic path)
 	sk := fmt.Sprintf("callsite:%s@%d", ct.key, pos)
-	n, seen := f.top.counters[sk]
-	if !seen {
-		n = f.ordinal("callsite:" + ct.key)
-		f.top.counters[sk] = n
+	n := f.siteOrdinal(ct.key, pos)
+	if n < 0 {
+		n = 1000 + f.ordinal("callsite-dyn:"+ct.key)
 	}
 	visit := f.ordinal(sk + "#visit")
 	where, txt := f.srcLine(pos)
@@ -400,6 +409,10 @@ func (f *fx) callSiteSpecs(ct *callTarget, args []Val, pos token.Pos) {
 			continue
 		}
 		env := f.callEnv(ct, args, f.cur, f.cur, nil)
+		env.callee = map[string]bool{}
+		for k := range env.vars {
+			env.callee[k] = true
+		}
 		// caller's own parameters and locals are visible unless shadowed by callee parameter names
 		for k, v := range f.top.topEnv.vars {
 			if _, clash := env.vars[k]; !clash {
@@ -420,6 +433,29 @@ func (f *fx) callSiteSpecs(ct *callTarget, args []Val, pos token.Pos) {
 }
 
 func (f *fx) noCrash() bool { return f.top.contract != nil && f.top.contract.NoCrash }
+
+// smallLoopFree: candidates for inlining when no contract is given.
+func smallLoopFree(fn *ssa.Function) bool {
+	if len(fn.Blocks) == 0 {
+		return false
+	}
+	n := 0
+	for _, b := range fn.Blocks {
+		n += len(b.Instrs)
+		for _, s := range b.Succs {
+			if s.Dominates(b) {
+				return false
+			}
+		}
+		for _, in := range b.Instrs {
+			switch in.(type) {
+			case *ssa.Defer, *ssa.Go:
+				return false
+			}
+		}
+	}
+	return n <= 120
+}
 
 func resultTypes(sig *types.Signature) []types.Type {
 	var ts []types.Type
@@ -457,10 +493,14 @@ func (f *fx) freshErrPanicValue() Term {
 // libraryCall: default for functions of packages outside the repository that have no contract:
 // they do not touch the interpreter's heap, may panic with an error, and return arbitrary values.
 func (f *fx) libraryCall(ct *callTarget, args []Val, pos token.Pos) Val {
-	f.note(fmt.Sprintf("library function %s has no contract: assumed not to modify any state tracked here, to return arbitrary well-typed values, and possibly to panic with an error", ct.key))
-	exc := f.sc.fresh("exc", "Bool")
-	f.raise(f.sc.define("edge", and(f.curReach, exc)), f.cloneState(f.cur), f.freshErrPanicValue(), "call "+ct.key, pos)
-	f.curReach = f.sc.define("reach", and(f.curReach, not(exc)))
+	if totalLibrary(ct) {
+		f.note(fmt.Sprintf("library function %s has no contract: assumed total (never panics), not to modify any state tracked here, and to return arbitrary well-typed values", ct.key))
+	} else {
+		f.note(fmt.Sprintf("library function %s has no contract: assumed not to modify any state tracked here, to return arbitrary well-typed values, and possibly to panic with an error", ct.key))
+		exc := f.sc.fresh("exc", "Bool")
+		f.raise(f.sc.define("edge", and(f.curReach, exc)), f.cloneState(f.cur), f.freshErrPanicValue(), "call "+ct.key, pos)
+		f.curReach = f.sc.define("reach", and(f.curReach, not(exc)))
+	}
 	post := f.cloneState(f.cur)
 	f.bumpAlloc(post, f.cur)
 	f.cur = post
@@ -471,6 +511,29 @@ func (f *fx) libraryCall(ct *callTarget, args []Val, pos token.Pos) Val {
 		rs = append(rs, termVal(r))
 	}
 	return f.packResults(rs)
+}
+
+// totalLibrary: packages whose exported functions are total for all arguments that matter here.
+var totalPkgs = map[string]bool{"strings": true, "unicode": true, "unicode/utf8": true, "bytes": true, "strconv": true, "path": true, "path/filepath": true, "sort": true, "fmt": true, "errors": true, "html": true, "net/url": true}
+
+func totalLibrary(ct *callTarget) bool {
+	if ct.fn == nil {
+		return false
+	}
+	var pkg *types.Package
+	if ct.fn.Pkg != nil {
+		pkg = ct.fn.Pkg.Pkg
+	} else if ct.fn.Object() != nil {
+		pkg = ct.fn.Object().Pkg()
+	}
+	if pkg == nil || !totalPkgs[pkg.Path()] {
+		return false
+	}
+	switch ct.fn.Name() {
+	case "Repeat": // strings.Repeat panics on a negative count
+		return false
+	}
+	return true
 }
 
 func isLibraryFn(fn *ssa.Function) bool {
@@ -719,6 +782,73 @@ func (f *fx) applyModifies(ct *callTarget, env *Env, pre *State, tag string) *St
 	return post
 }
 
+// calleeKeyOf computes the contract key of a call without resolving values.
+func calleeKeyOf(c *ssa.CallCommon) string {
+	if _, ok := c.Value.(*ssa.Builtin); ok {
+		return ""
+	}
+	if c.IsInvoke() {
+		return "(" + typeKeyString(c.Value.Type()) + ")." + c.Method.Name()
+	}
+	if sf := c.StaticCallee(); sf != nil {
+		return fnKey(sf)
+	}
+	return ""
+}
+
+// siteOrdinal: ordinal of a static call site among all call sites of the same callee in the
+// function under contract (including its anonymous functions), ordered by source position.
+func (f *fx) siteOrdinal(key string, pos token.Pos) int {
+	t := f.top
+	if t.siteOrds == nil {
+		t.siteOrds = map[string]map[token.Pos]int{}
+	}
+	m, ok := t.siteOrds[key]
+	if !ok {
+		var ps []token.Pos
+		var walk func(fn *ssa.Function)
+		walk = func(fn *ssa.Function) {
+			for _, b := range fn.Blocks {
+				for _, in := range b.Instrs {
+					if ci, ok := in.(ssa.CallInstruction); ok && calleeKeyOf(ci.Common()) == key {
+						ps = append(ps, ci.Pos())
+					}
+				}
+			}
+			for _, a := range fn.AnonFuncs {
+				walk(a)
+			}
+		}
+		walk(t.fn)
+		sort.Slice(ps, func(i, j int) bool { return ps[i] < ps[j] })
+		m = map[token.Pos]int{}
+		for i, p := range ps {
+			if _, dup := m[p]; !dup {
+				m[p] = i
+			}
+		}
+		t.siteOrds[key] = m
+	}
+	if n, ok := m[pos]; ok {
+		return n
+	}
+	return -1
+}
+
+func (f *fx) visitsKey(c *ssa.CallCommon, pos token.Pos) string {
+	key := calleeKeyOf(c)
+	if key == "" {
+		return ""
+	}
+	n := f.siteOrdinal(key, pos)
+	if n < 0 {
+		return ""
+	}
+	k := fmt.Sprintf("E:visits:%s#%d", key, n)
+	f.regKey(k, "Int")
+	return k
+}
+
 // countCall increments the per-callee dynamic call counter (spec: ncalls("key")).
 func (f *fx) countCall(key string) {
 	k := "E:ncalls:" + key
@@ -736,6 +866,16 @@ func (f *fx) contractCall(ct *callTarget, args []Val, pos token.Pos) Val {
 	renv := f.callEnv(ct, args, pre, pre, nil)
 	for i, rq := range c.Requires {
 		g := f.specBool(rq, renv)
+		if isLibraryFn(ct.fn) || ct.libIface {
+			// preconditions of library functions are their documented panic conditions: crash obligations
+			if f.noCrash() {
+				f.note("crash-freedom of " + fnKey(f.top.fn) + " is assumed, not checked (nocrash)")
+				f.sc.assert(implies(f.curReach, g))
+				continue
+			}
+			f.oblige("crash", fmt.Sprintf("crash:call:%s#%d/requires%s", ct.key, n, clauseName(rq, i)), g, nil, where, "documented panic condition of "+ct.key+": "+rq.Src)
+			continue
+		}
 		f.oblige("requires", fmt.Sprintf("call:%s#%d/requires%s", ct.key, n, clauseName(rq, i)), g, rq.Props, where, "precondition of "+ct.key+": "+rq.Src)
 	}
 	// frame: callee's modifies must be allowed by ours
@@ -782,6 +922,11 @@ func (f *fx) contractCall(ct *callTarget, args []Val, pos token.Pos) Val {
 		r := f.sc.fresh(fmt.Sprintf("ret%d_%s", i, ct.key), f.e.sorts.sortOf(t))
 		f.assumeTyped(post, r, t)
 		rs = append(rs, termVal(r))
+	}
+	for i, r := range rs {
+		k := fmt.Sprintf("E:ret:%s:%d", ct.key, i)
+		f.regKey(k, r.T.Sort)
+		f.set(f.cur, k, r.T)
 	}
 	eenv := f.callEnv(ct, args, pre, post, rs)
 	for _, en := range c.Ensures {
